@@ -42,13 +42,14 @@ SHADOWED = ("int", "float", "len")
 BINDINGS = ("absent", "user_function", "alias", "non_callable", "guppy_def",
             "none_value", "zero", "user_class")
 H_BINDINGS = ("absent", "absent", "user_function", "alias", "non_callable", "none_value")
+# (plus, derived from callee_comptime_fails: callee_fails_caller_catches)
 FAULTS = ("none", "raise_user_exception", "zero_division", "branch_on_dynamic",
           "iterate_dynamic", "qubit_used_twice", "wrong_return_type", "leak_qubit",
           "bad_guppy_call", "callee_comptime_fails", "assert_false", "bad_signature",
           "keyboard_interrupt_like", "raise_stop_iteration", "raise_generator_exit",
           "raise_keyboard_interrupt", "raise_system_exit", "helper_raises")
 # how the Python function behind a comptime definition relates to the user's module
-STYLES = ("plain", "plain", "plain", "wrapped_same", "wrapped_other", "foreign")
+STYLES = ("plain", "plain", "plain", "wrapped_same", "wrapped_other", "foreign", "foreign_globals")
 
 
 def warm() -> None:
@@ -155,7 +156,7 @@ def gen_config(ch: Choices, params: dict) -> dict:
     styles = {}
     for (m, j) in cts:
         st = ch.pick(STYLES, "style")
-        if st == "foreign" and mods[m]["ty"] != "bool" and helper[mods[m]["ty"]] not in ("absent", "alias"):
+        if st.startswith("foreign") and mods[m]["ty"] != "bool" and helper[mods[m]["ty"]] not in ("absent", "alias"):
             st = "plain"   # the annotation name must denote the builtin type in both namespaces
         styles[(m, j)] = st
     bodies = {}
@@ -173,7 +174,7 @@ def gen_config(ch: Choices, params: dict) -> dict:
                 s = "a = x"
             if s == "d = int(x)" and mods[m]["ty"] == "bool":
                 s = "a = x"
-            local = styles[(m, j)] != "foreign"   # foreign bodies live in the helper module
+            local = not styles[(m, j)].startswith("foreign")   # foreign bodies live in the helper module
             stmts.append(s.replace("{comptime}", f"M{tgt[0]}.ct{tgt[0]}_{tgt[1]}"
                                    if tgt[0] != m or not local else f"ct{tgt[0]}_{tgt[1]}")
                          .replace("{regular}", f"M{rg}.rg{rg}" if rg != m or not local else f"rg{rg}"))
@@ -199,11 +200,16 @@ def function_source(cfg: dict, mm: int, j: int, fault: dict | None) -> tuple[str
     mod = cfg["mods"][mm]
     ty = mod["ty"]
     style = cfg["styles"][(mm, j)]
-    local = style != "foreign"
+    local = not style.startswith("foreign")
     stmts = list(cfg["bodies"][(mm, j)])
     if fault and fault.get("caller") == (mm, j):
         cm, cj = fault["fn"]
-        stmts.insert(0, f"cc = ct{cm}_{cj}(x)" if cm == mm and local else f"cc = M{cm}.ct{cm}_{cj}(x)")
+        call = f"ct{cm}_{cj}(x)" if cm == mm and local else f"M{cm}.ct{cm}_{cj}(x)"
+        if fault.get("catch"):
+            # the traced body catches the failure of the nested comptime call and goes on
+            stmts.insert(0, f"try:\n        cc = {call}\n    except BaseException:\n        cc = x")
+        else:
+            stmts.insert(0, f"cc = {call}")
     ret_ty, ret = ty, "return x"
     sig_ty = ty
     if fault and fault["fn"] == (mm, j):
@@ -218,6 +224,12 @@ def function_source(cfg: dict, mm: int, j: int, fault: dict | None) -> tuple[str
                 fs = fs.replace("{regular}", f"rg{mm}" if local else f"M{mm}.rg{mm}")
                 stmts.insert(min(fault["pos"], len(stmts)), fs)
     body = "\n".join("    " + s for s in stmts + [ret])
+    if style == "foreign_globals":
+        # the function object is rebuilt over a globals dict that is NOT a module's dict
+        return (f"ct{mm}_{j} = guppy.comptime(H.fr{mm}_{j})\n\n",
+                f"def fr{mm}_{j}(x: {sig_ty}) -> {ret_ty}:\n{body}\n\n"
+                f"CUSTOM_GLOBALS.append(dict(globals()))\n"
+                f"fr{mm}_{j} = types.FunctionType(fr{mm}_{j}.__code__, CUSTOM_GLOBALS[-1], 'fr{mm}_{j}')\n\n")
     if not local:
         return (f"ct{mm}_{j} = guppy.comptime(H.fr{mm}_{j})\n\n",
                 f"def fr{mm}_{j}(x: {sig_ty}) -> {ret_ty}:\n{body}\n\n")
@@ -232,7 +244,7 @@ def function_source(cfg: dict, mm: int, j: int, fault: dict | None) -> tuple[str
 def helper_source(cfg: dict, fault: dict | None) -> str:
     """The helper module H: a decorator, its own bindings of the shadowed names, and the
     bodies of `foreign` comptime functions (registered from the user's module)."""
-    src = "import functools\nfrom sim.props.c23 import SimFault, SimBase\n\n"
+    src = "import functools\nimport types\nfrom sim.props.c23 import SimFault, SimBase\n\nCUSTOM_GLOBALS = []\n\n"
     for n in SHADOWED:
         src += binding_src(n, cfg["helper"][n])
     src += HELPERS_PY + LOGGED.format(name="logged")
@@ -276,6 +288,8 @@ def snapshot(mods: list, helper=None) -> dict:
             for i, m in enumerate(mods)}
     if helper is not None:
         snap["H"] = {k: id(v) for k, v in helper.__dict__.items() if k not in IGNORED}
+        for gi, g in enumerate(helper.CUSTOM_GLOBALS):      # globals dicts that are no module's
+            snap[f"G{gi}"] = {k: id(v) for k, v in g.items() if k not in IGNORED}
     snap["builtins"] = {n: id(getattr(builtins, n)) for n in SHADOWED}
     return snap
 
@@ -322,6 +336,10 @@ def run_case(ch: Choices, params: dict) -> dict:
                 plans += [{"fn": callee, "kind": "raise_user_exception", "pos": p,
                            "caller": target, "label": k}
                           for p in range(len(cfg["bodies"][callee]) + 1)]
+                plans += [{"fn": callee, "kind": kk, "pos": p, "caller": target, "catch": True,
+                           "label": "callee_fails_caller_catches"}
+                          for kk in ("raise_user_exception", "leak_qubit", "keyboard_interrupt_like")
+                          for p in (0, len(cfg["bodies"][callee]))]
         else:
             plans.append({"fn": target, "kind": k, "pos": 0})
     n_hist_ops = ch.rng_int(1, 4, "n_ops")
@@ -350,6 +368,8 @@ def run_case(ch: Choices, params: dict) -> dict:
                 if k2 != i:
                     setattr(mod, f"M{k2}", other)
             setattr(hmod, f"M{i}", mod)
+            for g in hmod.CUSTOM_GLOBALS:
+                g[f"M{i}"] = mod
         if defn_error:
             log.add("defn-error", pi, defn_error[:80])
             continue
@@ -404,7 +424,7 @@ def run_case(ch: Choices, params: dict) -> dict:
                              "expected": f"{mod}.{nm} as before the op",
                              "observed": cls, "detail": {"op": name, "fault": fault, "result": res,
                                                          "style": cfg["styles"][target],
-                                                         "bindings": cfg["helper"] if mod == "H" else cfg["mods"][int(mod[1:])]["bindings"] if mod != "builtins" else None}})
+                                                         "bindings": cfg["helper"] if mod[0] in "HG" else cfg["mods"][int(mod[1:])]["bindings"] if mod != "builtins" else None}})
             if fault and fault.get("caller") and res != "ok":
                 probes["raise_in_callee_traced_after_caller"] += 1
         faults[kind] = faults.get(kind, 0) + (1 if fired else 0)
